@@ -156,7 +156,7 @@ def gen_cases(ctx):
         shaped(cmd)
     nshaped = len(cases)
     # ---- random ----
-    for _ in range(ctx.n(60, 1400)):
+    for _ in range(ctx.n(250, 2500)):
         cmd = rng.choice(cligen.CMDS)
         extra = []
         if rng.random() < 0.15:
